@@ -435,6 +435,118 @@ def _inlined_body(h, call, st, fn, copy):
     return prelude + new
 
 
+def _optional_args_by_keyword(tree):
+    """(m) in a call of a plain function defined once at the top level of the same module, an argument bound
+    positionally to a parameter that has a default is written by keyword:  dump_grid(g, mode)  ->  dump_grid(g, mode=mode)
+    (the repository's own style; the rules name `version=` / `mode=` arguments).  Calls with * or ** are left alone."""
+    if not isinstance(tree, ast.Module):
+        return
+    sigs = {}
+    counts = {}
+    for n in ast.walk(tree):
+        if isinstance(n, ast.FunctionDef):
+            counts[n.name] = counts.get(n.name, 0) + 1
+        elif isinstance(n, (ast.Assign, ast.AugAssign, ast.For, ast.With, ast.Import, ast.ImportFrom, ast.arg, ast.Global)):
+            pass
+    for st in tree.body:
+        if isinstance(st, ast.FunctionDef) and counts.get(st.name) == 1 and not st.args.vararg and not st.args.posonlyargs \
+                and not st.decorator_list:
+            params = [a.arg for a in st.args.args]
+            sigs[st.name] = (params, len(params) - len(st.args.defaults))
+    if not sigs:
+        return
+    # a name that is also bound some other way (assignment, parameter, import, loop variable) is not resolved
+    for n in ast.walk(tree):
+        if isinstance(n, ast.Name) and isinstance(n.ctx, (ast.Store, ast.Del)) and n.id in sigs:
+            sigs.pop(n.id, None)
+        elif isinstance(n, ast.arg) and n.arg in sigs:
+            sigs.pop(n.arg, None)
+        elif isinstance(n, (ast.Import, ast.ImportFrom)):
+            for a in n.names:
+                sigs.pop(a.asname or a.name.split('.')[0], None)
+    for n in ast.walk(tree):
+        if isinstance(n, ast.Call) and isinstance(n.func, ast.Name) and n.func.id in sigs \
+                and not any(isinstance(a, ast.Starred) for a in n.args) and all(k.arg for k in n.keywords):
+            params, nreq = sigs[n.func.id]
+            if len(n.args) <= nreq or len(n.args) > len(params):
+                continue
+            extra = n.args[nreq:]
+            names = params[nreq:nreq + len(extra)]
+            if set(names) & {k.arg for k in n.keywords}:
+                continue
+            n.args = n.args[:nreq]
+            n.keywords = [ast.keyword(arg=a, value=v) for a, v in zip(names, extra)] + list(n.keywords)
+
+
+_FSPEC = None
+
+
+def _fstrings_to_percent(tree):
+    """(l) an f-string whose replacement fields are `{e!s}`, `{e!r}`, `{e}` (no format spec) or `{e:<flags><width><.prec>f|x|X}`
+    is the %-format expression it abbreviates:  f'C({a:f},{b:f})'  ->  'C(%f,%f)' % (a, b).   `{e}` is format(e, ''),
+    which is str(e) for every class that does not define __format__ (Model refuses to analyse a tree that does).
+    Other f-strings are left alone (the rules then cannot decide, never guess)."""
+    import re
+    global _FSPEC
+    if _FSPEC is None:
+        _FSPEC = re.compile(r'^([+ #0]*)(\d*)(\.\d+)?([fxX])$')
+    for node in ast.walk(tree):
+        if not isinstance(node, ast.JoinedStr):
+            continue
+        if isinstance(getattr(node, '_parent_fs', None), ast.FormattedValue):
+            continue
+        fmt = ''
+        args = []
+        ok = True
+        for v in node.values:
+            if isinstance(v, ast.Constant) and isinstance(v.value, str):
+                fmt += v.value.replace('%', '%%')
+            elif isinstance(v, ast.FormattedValue):
+                spec = v.format_spec
+                if spec is None:
+                    if v.conversion in (-1, ord('s')):
+                        fmt += '%s'
+                    elif v.conversion == ord('r'):
+                        fmt += '%r'
+                    else:
+                        ok = False
+                        break
+                else:
+                    if v.conversion != -1 or not (isinstance(spec, ast.JoinedStr) and len(spec.values) == 1
+                                                  and isinstance(spec.values[0], ast.Constant)):
+                        ok = False
+                        break
+                    m = _FSPEC.match(spec.values[0].value)
+                    if not m:
+                        ok = False
+                        break
+                    fmt += '%' + spec.values[0].value
+                args.append(v.value)
+            else:
+                ok = False
+                break
+        if not ok or not args:
+            if ok and not args:
+                const = ast.Constant(value=''.join(v.value for v in node.values))
+                node.__class__ = ast.Constant
+                keep = {k: getattr(node, k) for k in ('lineno', 'col_offset', 'end_lineno', 'end_col_offset') if hasattr(node, k)}
+                node.__dict__.clear()
+                node.value = const.value
+                node.kind = None
+                node.__dict__.update(keep)
+            continue
+        keep = {k: getattr(node, k) for k in ('lineno', 'col_offset', 'end_lineno', 'end_col_offset') if hasattr(node, k)}
+        left = ast.Constant(value=fmt, kind=None, **keep)
+        # one field: the rules read `'%s' % x` as str(x) (x not a tuple), which is what the f-string does for every x
+        right = ast.Tuple(elts=args, ctx=ast.Load(), **keep) if len(args) != 1 or isinstance(args[0], ast.Tuple) else args[0]
+        node.__class__ = ast.BinOp
+        node.__dict__.clear()
+        node.left = left
+        node.op = ast.Mod()
+        node.right = right
+        node.__dict__.update(keep)
+
+
 def _canon_steps(tree):
     """Behaviour-preserving normal form applied to every module before any rule looks at it, so that the
     rules see one shape for the common equivalent spellings:
@@ -444,6 +556,8 @@ def _canon_steps(tree):
       (c) `if a: (if b: S)`  ->  `if a and b: S`      (neither has an else)
 
     Line numbers of the surviving nodes are kept."""
+    _fstrings_to_percent(tree)
+    _optional_args_by_keyword(tree)
     for node in ast.walk(tree):
         # (j) `<literal> == x` / `None is x`  ->  `x == <literal>` / `x is None`
         if isinstance(node, ast.Compare) and len(node.ops) == 1 and isinstance(node.ops[0], (ast.Eq, ast.NotEq, ast.Is, ast.IsNot)) \
@@ -805,6 +919,10 @@ class Model(object):
                 self.modules[name] = Module(name, path, text)
             except SyntaxError as e:
                 self.load_errors[name] = str(e)
+        for name, m in self.modules.items():
+            if '__format__' in m.text and any(isinstance(n, ast.FunctionDef) and n.name == '__format__' for n in ast.walk(m.tree)):
+                # canonicalisation (l) reads `{e}` as str(e); a __format__ override would make that wrong
+                raise AnalysisError('hszinc/%s.py defines __format__: f-string fields without conversion are no longer str()' % name)
         self._const_cache = {}
 
     def with_override(self, modname, text):
